@@ -1,7 +1,8 @@
 (* C07/Check.v — correspondence + property oracle for one C07 harness case (executable only).
 
    tag 1 (PBF history): procs resume items* mode filter calls* rac hdrLate leaked
-   tag 2 (XML history): nobjs calls* extra_bytes_after_stop
+   tag 2 (XML history): nobjs final_err calls* extra_bytes_after_stop   (final_err: io.EOF, or the
+     error of an element that fails to decode after the nobjs objects)
    call triples (code, a, b): 0 Scan (ok, id) | 1 Header (err) | 2 Err (err) | 3 Close | 4 Cancel
      (scanning goroutine) | 5 marker: the scanning goroutine has seen that the other goroutine's
      cancel returned | 6 marker: the other goroutine was launched.
@@ -106,7 +107,7 @@ Definition ostep (ferr : err) (o : ost) (t : Z * Z * Z) : ost :=
          || (match rem o with [] => a =? (if ferr =? eEOF then 0 else ferr) | _ => false end)
       then o else bad o
     else if o_maybe o && negb (o_cancelled o) then
-      if (a =? spec_err o) || (a =? eCtx) then o else bad o
+      if (a =? spec_err o) || ((a =? eCtx) && negb (o_closed o)) then o else bad o
     else if a =? spec_err o then o else bad o
   else if c =? 3 then mkOst (rem o) true (o_cancelled o) (o_maybe o) (o_ended o) (o_rec o) (o_cut o) (o_bad o)
   else if (c =? 4) || (c =? 5) then mkOst (rem o) (o_closed o) true (o_maybe o) (o_ended o) (o_rec o) (o_cut o) (o_bad o)
@@ -172,6 +173,13 @@ Definition check_slow_close : P (list Z) :=
   let j2 := prefixb ids (expected inp) && (inread =? 0) && (later =? 0) && (leaked =? 0) in
   ret (code_if j2 2)%list.
 
+(* tag 7 (known finding class close-while-read-blocked): Close is called while the reader goroutine
+   is blocked in Read; the property text wants Close to return; once the Read has returned Close
+   must return and nothing may be left *)
+Definition check_blocked_close : P (list Z) :=
+  n <- pnat ;; returned <- pbool ;; after_ <- pbool ;; leaked <- pint ;;
+  ret (code_if (returned && after_ && (leaked =? 0)) 2)%list.
+
 Definition check_pbf : P (list Z) :=
   n <- pnat ;; resume <- pbool ;; hdrerr <- pint ;; its <- plist (ppair pint pint) ;;
   mode <- pint ;; filter <- pint ;; calls <- plist ptriple ;;
@@ -193,11 +201,11 @@ Definition check_pbf : P (list Z) :=
   ret (code_if j1 1 ++ code_if j2 2)%list.
 
 Definition check_xml : P (list Z) :=
-  n <- pnat ;; calls <- plist ptriple ;; extra <- pint ;;
+  n <- pnat ;; ferr <- pint ;; calls <- plist ptriple ;; extra <- pint ;;
   let objs := map (fun j => Z.of_nat j + 1) (seq 0 n) in
-  let '(x, outs) := xrun (calls_of calls) (xinit objs eEOF) in
+  let '(x, outs) := xrun (calls_of calls) (xinit objs ferr) in
   let j1 := outs_match calls outs in
-  let j2 := oracle objs eEOF calls && (extra =? 0) in
+  let j2 := is_err ferr && oracle objs ferr calls && (extra =? 0) in
   ret (code_if j1 1 ++ code_if j2 2)%list.
 
 (* tag 3: XML scan, context cancelled from another goroutine inside a long run of tokens that yield
@@ -226,7 +234,8 @@ Definition check_case (t : toks) : list Z :=
   | tag :: rest =>
       let p := if tag =? 2 then check_pbf else if tag =? 4 then check_xml
                else if tag =? 6 then check_xml_cancel else if tag =? 8 then check_stalled
-               else if tag =? 10 then check_foreign_run else if tag =? 12 then check_slow_close else pfail in
+               else if tag =? 10 then check_foreign_run else if tag =? 12 then check_slow_close
+               else if tag =? 14 then check_blocked_close else pfail in
       match parse_all p rest with Some codes => codes | None => [0] end
   | [] => [0]
   end.
